@@ -309,6 +309,28 @@ def run(chk, prog):
         chk.finding("connector-recorded", pr.key, "set_connector", "", "%s:%s" % (pr.file, pr.line),
                     "the connector recorded for the connection is not provably the one whose connect() is called")
 
+    # every other function that records a connector and then delegates to it (load-balancing groups, possibly nested): the record is
+    # written before the delegated connect() and never after it, so the innermost member that was really used is what remains recorded,
+    # also when that member's connect() fails
+    ndel = 0
+    for f in prog.fns.values():
+        if f.crate != "redproxy_rs" or f.key == pr.key:
+            continue
+        sc_ = [c for c in f.calls if re.search(r"context::Context::set_connector$", c.name or "")]
+        co_ = [c for c in f.calls if re.search(r"connectors::Connector::connect$", c.path or "")]
+        if not sc_ or not co_:
+            continue
+        ndel += 1
+        before = all(any(f.dominates(s_.bb, c_.bb) for s_ in sc_) for c_ in co_)
+        after = [s_ for s_ in sc_ for c_ in co_ if s_.bb in f.reach_from(f.succ[c_.bb])]
+        ok = before and not after
+        chk.instance("connector-recorded", "%s:%s" % (f.file, f.line), "%s records the member before delegating to it and not afterwards" % f.path, ok)
+        if not ok:
+            chk.finding("connector-recorded", f.key, "delegate-order", "", "%s:%s" % (f.file, f.line),
+                        "%s writes the connector record %s the delegated connect(): a nested group overwrites the upstream its member recorded, "
+                        "and a member whose connect() fails is never recorded" % (f.path, "after" if after else "on a path that bypasses"))
+    chk.floor("connector-recorded", ndel, 1, "delegating connectors that record their member")
+
     # ---------------------------------------------------------------- (6) counters = payload
     cb = prog.body_of(prog.one(r"^copy::copy_bidi$"))
     dr_calls = [c for c in cb.calls if re.search(r"copy::drain_buffers$", c.name or "")]
